@@ -163,7 +163,22 @@ pub struct Worker {
 
 impl Worker {
     pub fn spawn() -> std::io::Result<Worker> {
-        let exe = std::env::current_exe()?;
+        Self::spawn_profile(false)
+    }
+
+    /// `chk`: the worker of the chk build (debug assertions + overflow checks) next to this
+    /// executable (`../chk/mcx`).
+    pub fn spawn_profile(chk: bool) -> std::io::Result<Worker> {
+        let me = std::env::current_exe()?;
+        let exe = if chk {
+            let p = me.parent().map(|d| d.join("../chk/mcx")).unwrap_or_default();
+            if !p.exists() {
+                return Err(std::io::Error::new(std::io::ErrorKind::NotFound, format!("chk build of the harness not found at {} (run: cargo build --profile chk)", p.display())));
+            }
+            p
+        } else {
+            me
+        };
         let mut child = Command::new(exe).arg("worker").stdin(Stdio::piped()).stdout(Stdio::piped()).stderr(Stdio::null()).spawn()?;
         let stdin = child.stdin.take().unwrap();
         let mut stdout = BufReader::new(child.stdout.take().unwrap());
@@ -245,12 +260,16 @@ impl Drop for Worker {
 
 /// Runs all cases on a pool of worker subprocesses; `sink` receives each verdict.
 pub fn run_cases<C: Sync>(cases: &[C], nworkers: usize, enc: &(dyn Fn(&C) -> (usize, Vec<u8>) + Sync), sink: &(dyn Fn(&C, &Verdict) + Sync)) -> Result<(), String> {
+    run_cases_profile(cases, nworkers, false, enc, sink)
+}
+
+pub fn run_cases_profile<C: Sync>(cases: &[C], nworkers: usize, chk: bool, enc: &(dyn Fn(&C) -> (usize, Vec<u8>) + Sync), sink: &(dyn Fn(&C, &Verdict) + Sync)) -> Result<(), String> {
     let next = AtomicUsize::new(0);
     let err = std::sync::Mutex::new(None::<String>);
     std::thread::scope(|sc| {
         for _ in 0..nworkers {
             sc.spawn(|| {
-                let mut w = match Worker::spawn() {
+                let mut w = match Worker::spawn_profile(chk) {
                     Ok(w) => w,
                     Err(e) => {
                         *err.lock().unwrap() = Some(format!("cannot spawn worker: {e}"));
@@ -266,7 +285,7 @@ pub fn run_cases<C: Sync>(cases: &[C], nworkers: usize, enc: &(dyn Fn(&C) -> (us
                     let (v, alive) = w.run(entry, &bytes, 3000);
                     sink(&cases[i], &v);
                     if !alive {
-                        w = match Worker::spawn() {
+                        w = match Worker::spawn_profile(chk) {
                             Ok(w) => w,
                             Err(e) => {
                                 *err.lock().unwrap() = Some(format!("cannot respawn worker: {e}"));
